@@ -25,7 +25,7 @@ if [ "${SKIP_TESTS:-0}" != "1" ]; then
     scope=targeted; paths="$pk jumanji/env_test.py jumanji/wrappers_test.py jumanji/specs_test.py jumanji/registration_test.py jumanji/tree_utils_test.py jumanji/types_test.py jumanji/testing jumanji/training jumanji/environments/commons"
     paths=$(cd $wt && for q in $paths; do [ -e $q ] && echo $q; done | tr '\n' ' ')
   fi
-  (cd $wt && PYTHONPATH=$wt timeout 3000 /venv/bin/python -m pytest -q -p no:cacheprovider -n ${TEST_N:-8} --timeout=900 --continue-on-collection-errors -q $paths > $wt/.pytest.log 2>&1)
+  (cd $wt && PYTHONPATH=$wt timeout 3000 /venv/bin/python -m pytest -q -p no:cacheprovider -n ${TEST_N:-8} --timeout=900 --continue-on-collection-errors $paths > $wt/.pytest.log 2>&1)
   grep -E "^(FAILED|ERROR)" $wt/.pytest.log | sed 's/ - .*//' | sort > $wt/.fail.txt
   summary=$(grep -E "[0-9]+ passed" $wt/.pytest.log | tail -1)
   if [ -z "$summary" ]; then
